@@ -52,6 +52,7 @@ func c06Strings(tier string) int { return feStringsCount(feLen(tier)) }
 
 func init() {
 	register("C06", func() *Check {
+		feTuneRuntime()
 		L, S := len(c06Lexemes), len(feSeparators)
 		return &Check{ID: "C06", Scenarios: []Scenario{
 			{Name: "strings", Count: c06Strings, Run: func(tier string, idx int, r *Result) {
